@@ -5,6 +5,7 @@ import (
 
 	sdk "github.com/cosmos/cosmos-sdk/types"
 
+	auctionv1types "github.com/comdex-official/comdex/x/auction/types"
 	auctypes "github.com/comdex-official/comdex/x/auctionsV2/types"
 	lendtypes "github.com/comdex-official/comdex/x/lend/types"
 	liqtypes "github.com/comdex-official/comdex/x/liquidationsV2/types"
@@ -76,9 +77,14 @@ func (f *Fix) Config() M {
 		prem, disc = frac(wl.DutchAuctionParam.Premium), frac(wl.DutchAuctionParam.Discount)
 	}
 	ap, _ := f.E.App.NewaucKeeper.GetAuctionParams(ctx)
+	v1b, v1c := []int64{1, 1}, []int64{1, 1}
+	if lap, found := k.GetAddAuctionParamsData(ctx, f.App); found {
+		v1b, v1c = frac(lap.Buffer), frac(lap.Cusp)
+	}
 	return M{"assets": assets, "pools": pools, "pairs": pairs, "a2p": a2p, "users": f.V.Users, "app": int64(f.App), "pu": int64(PU), "v": f.V.Name,
 		"batch": int64(f.E.App.NewliqKeeper.GetParams(ctx).LiquidationBatchSize), "premium": prem, "discount": disc,
-		"dur": int64(ap.AuctionDurationSeconds), "dutch": wl.IsDutchActivated}
+		"dur": int64(ap.AuctionDurationSeconds), "dutch": wl.IsDutchActivated, "v1": f.V.V1, "v1buffer": v1b, "v1cusp": v1c,
+		"batch1": int64(f.E.App.LiquidationKeeper.GetParams(ctx).LiquidationBatchSize)}
 }
 
 func (f *Fix) poolModule(ctx sdk.Context, pool uint64) string {
@@ -109,6 +115,17 @@ func (f *Fix) Project(e *sim.Env) M {
 	borrows := []M{}
 	xb := []M{}
 	// handed over to a liquidation auction = the liquidation module holds a locked vault for the borrow position
+	underV1 := map[uint64]bool{} // first generation: the liquidation module holds a locked vault (kind borrow) for the position
+	v1lv := []M{}
+	for _, lv := range e.App.LiquidationKeeper.GetLockedVaults(ctx) {
+		if lv.GetBorrowMetaData() == nil {
+			continue
+		}
+		underV1[lv.OriginalVaultId] = true
+		v1lv = append(v1lv, M{"id": int64(lv.LockedVaultId), "b": int64(lv.OriginalVaultId), "owner": f.name(lv.Owner), "ain": i64(lv.AmountIn), "aout": i64(lv.AmountOut),
+			"uout": i64(lv.UpdatedAmountOut), "prog": lv.IsAuctionInProgress, "done": lv.IsAuctionComplete, "lend": int64(lv.GetBorrowMetaData().LendingId)})
+	}
+	sort.Slice(v1lv, func(i, j int) bool { return v1lv[i]["id"].(int64) < v1lv[j]["id"].(int64) })
 	handed := map[uint64]bool{}
 	for _, lv := range e.App.NewliqKeeper.GetLockedVaults(ctx) {
 		if lv.InitiatorType == "lend" {
@@ -125,7 +142,7 @@ func (f *Fix) Project(e *sim.Env) M {
 			}
 		}
 		borrows = append(borrows, M{"id": int64(b.ID), "lend": int64(b.LendingID), "pair": int64(b.PairID), "cin": i64(b.AmountIn.Amount),
-			"ca": f.assetOfDenom(b.AmountIn.Denom), "out": i64(b.AmountOut.Amount), "oa": f.assetOfDenom(b.AmountOut.Denom), "iT": iT, "liq": b.IsLiquidated, "ho": handed[b.ID], "st": b.IsStableBorrow,
+			"ca": f.assetOfDenom(b.AmountIn.Denom), "out": i64(b.AmountOut.Amount), "oa": f.assetOfDenom(b.AmountOut.Denom), "iT": iT, "liq": b.IsLiquidated, "ho": handed[b.ID], "uv": underV1[b.ID], "st": b.IsStableBorrow,
 			"bra": f.assetOfDenom(b.BridgedAssetAmount.Denom), "bram": i64(b.BridgedAssetAmount.Amount)})
 		tr, _ := k.GetBorrowInterestTracker(ctx, b.ID)
 		rT := int64(0)
@@ -182,6 +199,21 @@ func (f *Fix) Project(e *sim.Env) M {
 			"start": int64(a.StartTime.Sub(sim.GenesisTime).Seconds()), "end": int64(a.EndTime.Sub(sim.GenesisTime).Seconds())})
 	}
 	sort.Slice(aucs, func(i, j int) bool { return aucs[i]["id"].(int64) < aucs[j]["id"].(int64) })
+	v1aucs := []M{}
+	for _, a := range e.App.AuctionKeeper.GetDutchLendAuctions(ctx, f.App) {
+		lv, _ := e.App.LiquidationKeeper.GetLockedVault(ctx, a.AppId, a.LockedVaultId)
+		v1aucs = append(v1aucs, M{"id": int64(a.AuctionId), "map": int64(a.AuctionMappingId), "lv": int64(a.LockedVaultId), "b": int64(lv.OriginalVaultId), "owner": f.name(a.VaultOwner.String()),
+			"outInit": i64(a.OutflowTokenInitAmount.Amount), "outLeft": i64(a.OutflowTokenCurrentAmount.Amount), "collA": f.assetOfDenom(a.OutflowTokenCurrentAmount.Denom),
+			"target": i64(a.InflowTokenTargetAmount.Amount), "got": i64(a.InflowTokenCurrentAmount.Amount), "debtA": f.assetOfDenom(a.InflowTokenTargetAmount.Denom),
+			"price": sim.Limbs(a.OutflowTokenCurrentPrice.BigInt()), "init": sim.Limbs(a.OutflowTokenInitialPrice.BigInt()), "endp": sim.Limbs(a.OutflowTokenEndPrice.BigInt()),
+			"dprice": sim.Limbs(a.InflowTokenCurrentPrice.BigInt()), "start": int64(a.StartTime.Sub(sim.GenesisTime).Seconds()), "end": int64(a.EndTime.Sub(sim.GenesisTime).Seconds()),
+			"status": int64(a.AuctionStatus)})
+	}
+	sort.Slice(v1aucs, func(i, j int) bool { return v1aucs[i]["id"].(int64) < v1aucs[j]["id"].(int64) })
+	auc1 := []M{}
+	for _, a := range f.Assets {
+		auc1 = append(auc1, M{"asset": int64(a.ID), "amt": bal(sim.ModAddr(auctionv1types.ModuleName), a.Denom)})
+	}
 	kb := []M{}
 	for _, a := range f.Assets {
 		kb = append(kb, M{"asset": int64(a.ID), "amt": bal(e.Users["kp"], a.Denom)})
@@ -191,6 +223,6 @@ func (f *Fix) Project(e *sim.Env) M {
 	m := M{"nl": int64(k.GetUserLendIDCounter(ctx)), "nb": int64(k.GetUserBorrowIDCounter(ctx)), "price": price, "lends": lends, "borrows": borrows,
 		"stats": stats, "pb": pb, "ub": ub, "res": res, "rout": rout}
 	x := M{"t": int64(e.Time.Sub(sim.GenesisTime).Seconds()), "h": e.Height, "xb": xb, "auc": auc, "cs": cs, "aucs": aucs, "lv": lvs, "kb": kb,
-		"ks": ks.BreakerEnable, "off": int64(off.CurrentOffset)}
+		"ks": ks.BreakerEnable, "off": int64(off.CurrentOffset), "v1lv": v1lv, "v1aucs": v1aucs, "auc1": auc1}
 	return M{"m": m, "x": x}
 }
